@@ -335,6 +335,8 @@ static std::string gen_tag(rng &r, spec const &s)
 		t += pn;
 		int form = r.below(10);
 		std::string v = r.chance(1, 6) ? pn : gen_value(r);
+		// an allowed value with white space or a line end stuck to it is a different value (pattern and number rules are whole-string)
+		if (r.chance(1, 8)) { static char const *deco[] = { "\n", "\r\n", "\n\n", " ", "\t", "\r", "\x0b", "\x0c" }; std::string d = deco[r.below(8)]; if (r.chance(2, 3)) v += d; else v = d + v; }
 		if (form == 0) { if (r.chance(1, 2)) t += " "; }                                 // boolean form
 		else if (form == 1) t += "=" + v;                                          // unquoted
 		else if (form == 2) t += "='" + v + "'";
